@@ -4,7 +4,9 @@ import Driver.C04
 import Driver.C05
 import Driver.C01
 import Driver.C02
+import Driver.C15
+import Driver.C09
 
 def main : IO Unit :=
   Driver.runMain [Driver.C11.handle, Driver.C04.handle, Driver.C05.handle, Driver.C01.handle,
-    Driver.C02.handle]
+    Driver.C02.handle, Driver.C15.handle, Driver.C09.handle]
